@@ -234,7 +234,9 @@ def to_tree(m, v):
     if isinstance(v, VecObj): return [to_tree(m, x) for x in v.items]
     if isinstance(v, Slice): return [to_tree(m, x) for x in v.vec.items[v.lo:v.hi]]
     if isinstance(v, SetObj): return ("#set", [to_tree(m, k) for k, _ in v.items])
-    if isinstance(v, MapObj): return ("#map", [[to_tree(m, k), to_tree(m, x)] for k, x in v.items])
+    if isinstance(v, MapObj):
+        if not v.items: return ("#set", [])          # `{}` in Debug output does not say which; one canonical form
+        return ("#map", [[to_tree(m, k), to_tree(m, x)] for k, x in v.items])
     if isinstance(v, Str): return v.s if v.s is not None else v
     return v
 
